@@ -69,8 +69,11 @@ pub fn c19g(ctx: &Ctx, begin: &mut dyn FnMut(J)) -> Outcome {
         ANNOT[n % ANNOT.len()],
         (0..n).map(|i| format!(" uint id{}{}; \"x\"\n", i, ANNOT[(i + 1 + n) % ANNOT.len()])).collect::<String>()
     );
+    // empty comments ("") on the table and on every field: legal, and each is followed by more text
+    let custom_empty_comments = custom.replace("\"custom \u{3b1}\"", "\"\"").replace("\"c\"", "\"\"").replace("\"s\"", "\"\"").replace("\"e\"", "\"\"").replace("\"x\"", "\"\"");
     for (label, autosql, want_text, want_count) in [
         ("generated", Some(schema.clone()), Some(schema.clone()), 3 + n),
+        ("custom_empty_comments", Some(custom_empty_comments.clone()), Some(custom_empty_comments.clone()), 3 + n),
         ("custom_with_index_annotations", Some(custom_annot.clone()), Some(custom_annot.clone()), 3 + n),
         ("custom_snake_case_field_names", Some(custom_names.clone()), Some(custom_names.clone()), 3 + n),
         ("custom_snake_case_table_name", Some(custom_table.clone()), Some(custom_table.clone()), 3 + n),
